@@ -673,6 +673,9 @@ def processUnblocked : List Nat → Conn σ → List Event → Outcome (Conn σ 
     match lookupS id c.streams with
     | none => if c.cfg.k.unblockedKeyError then .error (.py .key) else processUnblocked ids c evs
     | some st =>
+      -- `if stream is None or not stream.blocked: continue` (the fixed code)
+      if c.cfg.k.unblockedKeyError = false ∧ st.blocked = false then processUnblocked ids c evs
+      else
       match resumeStream o c.cfg st c.q with
       | .error e => .error e
       | .ok (st3, q2, ev) =>
